@@ -1422,6 +1422,23 @@ func coreC46() []c46Case {
 		for _, s := range []string{"strict", "io", "burst"} {
 			out = append(out, c46Wide(18, kind, 16, s), c46Wide(23, kind, 20, s), c46Wide(17, kind, 99, s))
 		}
+		// more failing images than workers, followed by loadable ones: a worker slot that a
+		// failure does not give back is only missed once all 16 are gone
+		mf := c46Wide(21, kind, 99, "strict")
+		for j := range mf.Imgs {
+			if j < 17 {
+				if mf.Imgs[j].Loc == "http" {
+					mf.Imgs[j].Fail = c46HTTPFails[j%len(c46HTTPFails)]
+				} else {
+					mf.Imgs[j].Fail = c46LocalFails[j%len(c46LocalFails)]
+				}
+			} else {
+				mf.Imgs[j].Fail = ""
+			}
+		}
+		mf.Note = "wide " + kind + " 17 failing then 4 loading"
+		mf.Orders = mf.Orders[len(mf.Orders)-1:] // document order
+		out = append(out, mf, c46Wide(20, kind, 0, "strict"))
 	}
 	// cache: the second and third schedule find the loaded images in the bundler's cache
 	for _, kind := range []string{"local", "remote", "mixed"} {
@@ -1497,6 +1514,7 @@ func genC46(t *rapid.T) c46Case {
 	if wide {
 		n = rapid.IntRange(17, 22).Draw(t, "nwide")
 	}
+	manyFail := wide && rapid.Bool().Draw(t, "manyfail")
 	kind := gen.Pick(t, "kind", 3, 3, 4) // local, remote, mixed
 	for j := 0; j < n; j++ {
 		var im c46Img
@@ -1520,6 +1538,9 @@ func genC46(t *rapid.T) c46Case {
 			im.Pad = rapid.IntRange(66_000, 100_000).Draw(t, "padbig") // more than a pipe buffer
 		}
 		fails := gen.Pick(t, "fails", 3, 2) == 1
+		if wide && manyFail {
+			fails = j < n-3 || rapid.Bool().Draw(t, "tailfails")
+		}
 		if httpImg {
 			im.Loc = "http"
 			im.CType = rapid.SampledFrom(c46CTypes).Draw(t, "ctype")
